@@ -65,6 +65,17 @@ Theorem C02_result_refuted :
 Proof. exact SchemaProofs.C02_result_refuted. Qed.
 Print Assumptions C02_result_refuted.
 
+(* ... a further refuted instance of the result side, and the reason the argument side survives it: a reference to the
+   enclosing, still open list is judged on the list's members so far; the finished value is its own member *)
+Theorem C02_result_refuted_open_reference :
+  let c := CList (CList (CInt (Some 1024)) None 0) None 0 in
+  let w := WOpen OtList [WRefOpen 0 (OList []); WOpen OtList [WInt 129 1 1; WInt 129 2 2]] in
+  recv_answer (Some c) w = Callback (OList [OPending 0; OList [OInt 1; OInt 2]]) /\
+  checkObject c (OList [OPending 0; OList [OInt 1; OInt 2]]) = false /\
+  recv_call (ms1 c) [w] [] = CViol.
+Proof. exact result_refuted_open_reference. Qed.
+Print Assumptions C02_result_refuted_open_reference.
+
 (* ... what remains true of the result side: for constraints whose token-level enforcement is complete (Any, None,
    unbounded Int/Number, ByteString without maxLength/minLength, unbounded ListOf/SetOf of those) the value given to
    the callback satisfies the result constraint, for EVERY well-formed wire tree w (forged references included).
